@@ -99,7 +99,10 @@ func updateSelfRefs(node core_domain.CodeDataStruct, method core_domain.CodeFunc
 
 	for i, line := range lines {
 		if i == method.Position.StartLine-1 {
-			newLine := line[:method.Position.StartLinePosition] + info.Method + line[method.Position.StopLinePosition:]
+			// the recorded columns count characters, a Go string is indexed by bytes
+			start := byteOffset(line, method.Position.StartLinePosition)
+			stop := byteOffset(line, method.Position.StopLinePosition)
+			newLine := line[:start] + info.Method + line[stop:]
 			lines[i] = newLine
 		}
 	}
@@ -108,4 +111,16 @@ func updateSelfRefs(node core_domain.CodeDataStruct, method core_domain.CodeFunc
 	if err != nil {
 		log.Fatalln(err)
 	}
+}
+
+// byteOffset converts a character column of line (as recorded by the parser) to a byte offset.
+func byteOffset(line string, column int) int {
+	count := 0
+	for offset := range line {
+		if count == column {
+			return offset
+		}
+		count++
+	}
+	return len(line)
 }
